@@ -34,10 +34,10 @@ def _zonal():
     return importlib.import_module("hdc.algo.ops.zonal")
 
 
-def reference(values, zones, num_zones, isfloat):
+def reference(values, zones, num_zones, isfloat, nd=None):
     """values (T,P) float64 with ND / NaN markers, zones (P,). Returns mean (T,num_zones) float64 exact-rounded, count."""
     T, P = values.shape
-    valid = (values != ND) & ~np.isnan(values)
+    valid = (values != (ND if nd is None else nd)) & ~np.isnan(values)
     mean = np.full((T, num_zones), np.nan)
     cnt = np.zeros((T, num_zones), dtype=np.int64)
     for z in range(num_zones):
@@ -247,7 +247,36 @@ def accessor(ctx):
                     if res.dims != ("time", "zz", "stat") or list(res["zz"].values) != [10, 20, 30] or list(res["stat"].values) != ["mean", "valid"] \
                             or res.name != "zm" or res.attrs.get("nodata") != ND:
                         ctx.violation(sub, dict(key_fn(0), what="metadata"), case_fn(0), f"zonal.mean metadata: dims {res.dims}, name {res.name}, attrs {res.attrs}")
-    ctx.sample(sub, {"raster": "2x2, every value assignment as time steps", "backends": ["numpy", "dask (time chunks of 7)"]})
+    # nodata attributes that float32 (the default output dtype) cannot represent: the raster's pixels are compared with
+    # the marker in the raster's own precision whatever dtype the result is asked in
+    for pix_dtype, nd in (("float64", 1e20), ("float64", -9999.9), ("int32", 2147483647), ("int64", 99999999)):
+        isfloat = pix_dtype.startswith("float")
+        vals_alphabet = [nd, 7, -3] + ([np.nan] if isfloat else [])
+        vidx = sse.word_indices(len(vals_alphabet), P)
+        values = np.asarray(vals_alphabet, dtype=np.float64)[vidx]
+        T = values.shape[0]
+        time = pd.date_range("2000-01-01", periods=T, freq="D")
+        for zi in sse.word_indices(4, P)[::37]:
+            zones = zone_alphabet[zi]
+            zda = xr.DataArray(zones.astype("int16").reshape(shape), dims=("y", "x"), attrs={"nodata": ZND})
+            mean, cnt = reference(values, zones, 3, isfloat, nd=nd)
+            for backend in ("numpy", "dask"):
+                pix = values.astype(pix_dtype) if isfloat else np.asarray(vals_alphabet, dtype=pix_dtype)[vidx]
+                da = xr.DataArray(pix.reshape((T,) + shape), dims=("time", "y", "x"), coords={"time": time}, attrs={"nodata": nd}, name="v")
+                if backend == "dask":
+                    da = da.chunk({"time": 7, "y": -1, "x": -1})
+                for out_dtype in ("float32", "float64"):
+                    key_fn = lambda t: {"zones": zones.tolist(), "values": values[t].tolist(), "dtype": out_dtype, "backend": backend, "raster_dtype": pix_dtype, "nodata": nd}
+                    case_fn = lambda t: {"kind": "acc", **{k: v for k, v in key_fn(t).items() if k != "values"}}
+                    try:
+                        arr = np.asarray(da.hdc.zonal.mean(zda, [10, 20, 30], dtype=out_dtype).values)
+                    except Exception as e:
+                        ctx.violation(sub, key_fn(0), case_fn(0), f"zonal.mean on a {pix_dtype} raster with nodata {nd} raised {type(e).__name__}: {e}")
+                        continue
+                    ctx.count(sub, evaluations=T, nontrivial=T)
+                    check_result(arr, mean, cnt, out_dtype, ctx, sub, key_fn, case_fn)
+    ctx.sample(sub, {"raster": "2x2, every value assignment as time steps", "backends": ["numpy", "dask (time chunks of 7)"],
+                     "markers_not_representable_in_float32": [1e20, -9999.9, 2147483647, 99999999]})
 
 
 def value_dtypes(ctx):
@@ -264,7 +293,12 @@ def value_dtypes(ctx):
     }
     zone_alphabet = np.array([0, 1, ZND])
     zidx = sse.word_indices(3, P)
-    for dt, (nd, alphabet) in fams.items():
+    # markers that the float32 output dtype cannot represent exactly (the comparison with the marker must happen in
+    # the raster's own precision)
+    extra = [("int32", 2147483647, [2147483647, -7, 5, 1000000]), ("int64", 99999999, [99999999, -7, 5, 2 ** 40]),
+             ("float64", 1e20, [1e20, 7.5, -3.25, 1e6 + 0.5]), ("float64", -9999.9, [-9999.9, 7.5, -3.25, -9999.0]),
+             ("uint32", 4294967295, [4294967295, 1, 4000000000, 9])]
+    for dt, (nd, alphabet) in list(fams.items()) + [(d, (n_, a)) for d, n_, a in extra]:
         vidx = sse.word_indices(4, P)
         values = np.asarray(alphabet, dtype=np.float64)[vidx]
         T = values.shape[0]
@@ -283,7 +317,7 @@ def value_dtypes(ctx):
                     mean[:, z] = np.where(c > 0, sm / np.maximum(c, 1), np.nan)
                 cnt[:, z] = c
             for out_dtype in ("float32", "float64"):
-                key_fn = lambda t: {"value_dtype": dt, "zones": zones.tolist(), "values": values[t].tolist(), "dtype": out_dtype}
+                key_fn = lambda t: {"value_dtype": dt, "nodata": nd, "zones": zones.tolist(), "values": values[t].tolist(), "dtype": out_dtype}
                 case_fn = lambda t: {"kind": "vdt"}
                 try:
                     res = zm.do_mean(pixels, zr, 2, nd, ZND, getattr(np, out_dtype))
